@@ -174,4 +174,18 @@ def run(tier):
                 if not ok:
                     ck.finding("R5.opcode-table", "R5.opcode-table/unpatched/Op::%s.%s" % (o, fldname), None,
                                "Op::%s.%s is a jump target that no function of the compiler ever patches: forward jumps keep their placeholder" % (o, fldname))
+    # ---------------- R6 sibling opcode arms (plain key / computed key / constant key) agree on operand roles
+    import roles as R
+    ck.rule("R6.sibling-arms", "opcode arms that differ only in where the key comes from (X / XComputed / XConst) perform the same accesses on operands of the same role", floor=7)
+    pairs = [(a, b) for a in arms for b in arms if b in (a + "Computed", a + "Const")]
+    for a, b in sorted(pairs):
+        sa = R.keyless(R.normalise(R.access_signature(fx, ex, M.dominated_region(ex, arms[a]))))
+        sb = R.keyless(R.normalise(R.access_signature(fx, ex, M.dominated_region(ex, arms[b]))))
+        only_a, only_b = sorted(sa - sb), sorted(sb - sa)
+        ok = not only_a and not only_b
+        ck.instance("R6.sibling-arms", "Op::%s <-> Op::%s" % (a, b), None, ok=ok)
+        if not ok:
+            ck.finding("R6.sibling-arms", "R6.sibling-arms/%s/%s" % (a, b), F.short_span(ex.span),
+                       "Op::%s and Op::%s are the same operation with a different key source, but access different operands: only %s does %s; only %s does %s "
+                       "(equivalent syntactic forms behave differently)" % (a, b, a, only_a, b, only_b))
     return ck.finish()
